@@ -39,12 +39,12 @@ CODECS = 'the ten Gallina codecs equal CPython\'s (codec family: 20k encode/deco
 JSON = 'json.loads is a per-case oracle recorded from the implementation run; json.dumps(indent=4, sort_keys, separators) = Json.json_dump (stream family, byte for byte)'
 
 PROPS = {
-    'C01': dict(families=[_stream, _nesting], extra_props=['C01_sequence'], trusted_base=[PY, CODECS, JSON]),
+    'C01': dict(families=[_stream, _nesting], extra_props=['C01_sequence', 'C01_noguess'], trusted_base=[PY, CODECS, JSON]),
     'C02': dict(families=[_stream, _calls], extra_props=['C02_spec'], trusted_base=[PY, CODECS, JSON]),
     'C03': dict(families=[_foreign, _specfile], extra_props=['C03_spec', 'C03_defects'], trusted_base=[PY, CODECS, JSON]),
     'C04': dict(families=[_nesting, _stream], trusted_base=[PY, CODECS]),
     'C05': dict(families=[_dom], extra_props=['C05_full'], trusted_base=[PY, CODECS, JSON]),
-    'C06': dict(families=[_dom], extra_props=['C06_full'], trusted_base=[PY, CODECS, JSON]),
+    'C06': dict(families=[_dom], extra_props=['C06_full', 'C06_foreign'], trusted_base=[PY, CODECS, JSON]),
     'C07': dict(families=[_truncate], trusted_base=[PY, CODECS, JSON]),
     'C08': dict(families=[_fuzz], trusted_base=[PY, CODECS, JSON,
                 'runtime-only failures (MemoryError, non-BytesIO streams) are outside the modelled primitive set']),
